@@ -10,6 +10,7 @@
      Call*   the client entered a provider method (q = len(update channel) at that moment, -1 while
              the channel does not exist yet)
      Mine / Finalise / Reorg / Push / SubFail   what the scripted L1 node did meanwhile
+     Restart the harness stopped the client and started a new one on the same database
      Read    Blockchain.L1Head() read by the harness while the client is blocked (x = event id, 0 none)
      Ret*    the scheduler's answer (x = 1 ok / 0 error, y = value)
      NewHead EventListener.OnNewL1Head (x = event id)
@@ -42,7 +43,7 @@ TraceReset ==
   /\ l1of' = [e \in Ev |-> 0] /\ l2of' = [e \in Ev |-> 0]
   /\ reorgs' = 0 /\ subUp' = FALSE /\ subPos' = 0 /\ subErr' = FALSE /\ chan' = <<>> /\ delivered' = {}
   /\ pc' = "chainid" /\ chunk' = Ev_.x /\ cFin' = 0 /\ cTo' = 0 /\ cFound' = FALSE
-  /\ buffer' = [h \in Heights |-> 0] /\ stored' = 0 /\ fails' = 0
+  /\ buffer' = [h \in Heights |-> 0] /\ stored' = 0 /\ fails' = 0 /\ restarts' = 0
   /\ applied' = {} /\ removedSeen' = {}
 
 Keep == pend' = pend /\ announce' = announce
@@ -53,6 +54,10 @@ TraceFinalise == IsEvent("Finalise") /\ Adv /\ Keep /\ Finalise(Ev_.x)
 TraceReorg    == IsEvent("Reorg") /\ Adv /\ Keep /\ Reorg(Ev_.x)
 TracePush     == IsEvent("Push") /\ Adv /\ Keep /\ Push
 TraceSubFail  == IsEvent("SubFail") /\ Adv /\ Keep /\ SubFail
+
+(* the harness stopped the client (context cancelled while it was blocked in a call, Run returned)
+   and started a NEW client on the same database *)
+TraceRestart  == IsEvent("Restart") /\ Adv /\ pend' = "-" /\ announce = 0 /\ announce' = 0 /\ Restart
 
 (* ---- the client enters a provider method ---- *)
 Enter(m) == pend = "-" /\ announce = 0 /\ pend' = m /\ announce' = 0 /\ Adv
@@ -100,7 +105,7 @@ TraceConsume == pend = "-" /\ Consume /\ l' = l /\ Keep
 
 TraceNext ==
   \/ TraceReset
-  \/ TraceMine \/ TraceFinalise \/ TraceReorg \/ TracePush \/ TraceSubFail
+  \/ TraceMine \/ TraceFinalise \/ TraceReorg \/ TracePush \/ TraceSubFail \/ TraceRestart
   \/ TraceCallChainID \/ TraceCallLatest \/ TraceCallFilter \/ TraceCallFin \/ TraceCallWatch
   \/ TraceRetChainID \/ TraceRetLatest \/ TraceRetFilter \/ TraceRetFin \/ TraceRetWatch
   \/ TraceNewHead \/ TraceRead
